@@ -181,7 +181,7 @@ NearAngle(t, x, y, M) == DyLe(HueCircDist(DySub(x, y)), TolAngle(t, M))
 
 (* ---- Mix *)
 MixCompOK(t, a, b, f, out) == Near(t, out, MixLin(a, b, f), Mag3(a, b, DySub(b, a)))
-(* the direction is decided by hb - ha, which the implementation rounds: within Tol of opposite hues either
+(* the direction is decided by hb - ha, which the implementation rounds: within TolAngle of opposite hues either
    direction is admissible *)
 MixHueOK(t, ha, hb, f, out) ==
   LET d == DySub(hb, ha)  r == HueCanonSigned(d)
